@@ -160,6 +160,47 @@ def run_shards(binary, spec, tier, seed, root, replay=None, extra_env=None):
     return res
 
 
+def native_fuzz(pid, spec, root, violations, trouble):
+    """Coverage-guided tier: go test -fuzz on all cores for a wall-clock budget (cannot be seeded)."""
+    import glob, re
+    nf = spec["native_fuzz"]
+    d = os.path.join(root, "fuzz")
+    os.makedirs(os.path.join(d, "work"), exist_ok=True)
+    env = goenv()
+    env.update({"VERIF_OUT": d, "VERIF_FUZZ_FAILDIR": d, "VERIF_TIER": "thorough", "VERIF_DIR": VERIF})
+    pkgdir = os.path.join(VERIF, "harness", "props")
+    crashdir = os.path.join(pkgdir, "testdata", "fuzz", nf["target"])
+    shutil.rmtree(os.path.join(pkgdir, "testdata"), ignore_errors=True)
+    cmd = ["go", "test", "-tags", "verif", "-vet=off", "./props", "-run", "^$", "-fuzz", "^%s$" % nf["target"],
+           "-fuzztime", "%ds" % nf["seconds"], "-test.fuzzcachedir", os.path.join(d, "cache")]
+    t0 = time.time()
+    try:
+        p = subprocess.run(cmd, cwd=os.path.join(VERIF, "harness"), env=env, stdout=subprocess.PIPE, stderr=subprocess.STDOUT,
+                           text=True, timeout=nf["seconds"] + 300)
+        out, rc = p.stdout, p.returncode
+    except subprocess.TimeoutExpired as e:
+        out, rc = (e.stdout or b"").decode(errors="replace") if isinstance(e.stdout, bytes) else (e.stdout or ""), -9
+        trouble.append("native fuzzing exceeded its wall-clock budget")
+    execs = 0
+    for mm in re.finditer(r"execs: (\d+)", out):
+        execs = max(execs, int(mm.group(1)))
+    newint = 0
+    for mm in re.finditer(r"new interesting: (\d+)", out):
+        newint = max(newint, int(mm.group(1)))
+    fails = sorted(glob.glob(os.path.join(d, "fuzzfail-*.json")))
+    for fp in fails[:3]:
+        try:
+            f = json.load(open(fp))
+            violations.append((f.get("message", "native fuzzing found a failing input"), save_replay(pid, f)))
+        except Exception:
+            pass
+    if rc not in (0, -9) and not fails:
+        trouble.append("go test -fuzz exited with %s without a recorded failing input:\n%s" % (rc, out[-1500:]))
+    shutil.rmtree(os.path.join(pkgdir, "testdata"), ignore_errors=True)
+    return {"target": nf["target"], "seconds": round(time.time() - t0, 1), "executions": execs, "new_interesting_inputs": newint,
+            "failing_inputs": len(fails), "note": "coverage-guided, all cores, not seedable; only saved inputs are reproducible"}
+
+
 def load_results(shard):
     out = []
     for fn in sorted(os.listdir(shard["dir"])):
@@ -201,6 +242,8 @@ def merge(results):
          "known_hits": {}, "extra": {}, "failures": [], "notes": []}
     for r in results:
         m["evaluations"] += r.get("evaluations", 0)
+        if r.get("nontrivial") is None and r.get("nontrivial_count", 0) > 0:
+            m["nt_omitted"] = max(m.get("nt_omitted", 0), r["nontrivial_count"])
         m["nontrivial"].update((r.get("nontrivial") or {}).keys())
         for k, v in (r.get("labels") or {}).items():
             m["labels"][k] = m["labels"].get(k, 0) + v
@@ -320,6 +363,9 @@ def run(pid, spec, tier, seed, replay, root, t0):
         if os.path.exists(os.path.join(s["dir"], "trouble.txt")):
             trouble.append("shard %d: %s" % (s["i"], open(os.path.join(s["dir"], "trouble.txt")).read()[:2000]))
     m = merge(results)
+    fuzz_info = None
+    if not replay and tier == "thorough" and spec.get("native_fuzz") and not any(not f.get("known") for f in m["failures"]):
+        fuzz_info = native_fuzz(pid, spec, root, violations, trouble)
     for f in m["failures"]:
         if f.get("known"):
             continue
@@ -331,7 +377,7 @@ def run(pid, spec, tier, seed, replay, root, t0):
     t = spec["tiers"][tier]
     cov = {
         "evaluations": m["evaluations"],
-        "distinct_nontrivial": len(m["nontrivial"]),
+        "distinct_nontrivial": max(len(m["nontrivial"]), m.get("nt_omitted", 0)),
         "rule": spec["rule"],
         "samples": m["samples"][:4] if m["samples"] else ["(no non-trivial sample small enough to print)"],
         "labels": dict(sorted(m["labels"].items())),
@@ -341,7 +387,11 @@ def run(pid, spec, tier, seed, replay, root, t0):
         "cases_requested_per_shard": t.get("cases", 0),
     }
     cov.update(m["extra"])
+    if m.get("nt_omitted"):
+        cov["distinct_nontrivial_note"] = "lower bound: at least one shard had too many distinct non-trivial cases to ship its fingerprints; the count is the maximum of (largest such shard, union of the others)"
     cov.update(witness_stats)
+    if fuzz_info:
+        cov["native_fuzz"] = fuzz_info
     if spec.get("exhaustive_note"):
         cov["exhaustive_part"] = spec["exhaustive_note"]
     ev = {
@@ -380,7 +430,7 @@ def run(pid, spec, tier, seed, replay, root, t0):
             log("INCONCLUSIVE %s: only %d evaluations" % (pid, m["evaluations"]))
             return 2
     print("OK property=%s tier=%s seed=%d evaluations=%d distinct_nontrivial=%d wall=%.1fs" % (
-        pid, tier, seed, m["evaluations"], len(m["nontrivial"]), wall))
+        pid, tier, seed, m["evaluations"], cov["distinct_nontrivial"], wall))
     return 0
 
 
